@@ -1200,6 +1200,20 @@ orc_compiler_rewrite_vars (OrcCompiler *compiler)
   }
 }
 
+/* A target that keeps array pointers in memory when it runs out of registers
+ * (allow_gp_on_stack) gets 0 from the allocator.  The resampling rules address
+ * through the pointer and the offset register directly, so for them running
+ * out of registers is an overflow like any other. */
+static void
+orc_compiler_check_resample_regs (OrcCompiler *compiler, OrcVariable *var)
+{
+  if (compiler->error) return;
+  if (var->ptr_register == 0 || var->ptr_offset == 0) {
+    orc_compiler_error (compiler, "register overflow for gp register");
+    compiler->result = ORC_COMPILE_RESULT_UNKNOWN_COMPILE;
+  }
+}
+
 static void
 orc_compiler_global_reg_alloc (OrcCompiler *compiler)
 {
@@ -1223,6 +1237,7 @@ orc_compiler_global_reg_alloc (OrcCompiler *compiler)
         }
         if (var->need_offset_reg) {
           var->ptr_offset = orc_compiler_allocate_register (compiler, FALSE);
+          orc_compiler_check_resample_regs (compiler, var);
         }
         break;
       case ORC_VAR_TYPE_DEST:
@@ -1230,6 +1245,7 @@ orc_compiler_global_reg_alloc (OrcCompiler *compiler)
         /* a destination array may also be the source of a resampling load */
         if (var->need_offset_reg) {
           var->ptr_offset = orc_compiler_allocate_register (compiler, FALSE);
+          orc_compiler_check_resample_regs (compiler, var);
         }
         break;
       case ORC_VAR_TYPE_ACCUMULATOR:
